@@ -201,7 +201,7 @@ Section Parse.
     generalize (lex_next_spec src l Hinv). destruct (lex_next l) as [t l'|pos l'].
     - unfold next_tok_post, tok_post. intros ((A1 & A2 & _) & _).
       destruct (ttag t); try (split; assumption). apply IH. exact A2.
-    - unfold next_err_post. intros (_ & A & _). exact A.
+    - unfold next_err_post. intros (_ & A & _). lia.
   Qed.
 
   Lemma wp_advance : forall p (Q : token -> pstate -> Prop),
@@ -665,88 +665,26 @@ Theorem tok_in_src_get_string : forall src t, tok_in_src src t ->
   get_string src t = Some (slice src (tpos t) (tlen t)).
 Proof. exact get_string_in. Qed.
 
-(* the illegal-character error, rendered: same line as the byte, caret exactly on it *)
-Theorem illegal_char_caret_exact_proof : forall src l p l' text n col,
-  lex_inv src l -> lex_next l = LexErr p l' -> lstart l' = p ->
+(* every lexer error of Lexer.Next, rendered: the line of the offending byte (the unexpected
+   character, or the opening quote of the unterminated string), the caret exactly on it *)
+Theorem lexer_error_caret_exact_proof : forall src l p l' text n col,
+  lex_inv src l -> lex_next l = LexErr p l' ->
   get_line_col src p = (text, n, col) ->
   n = S (line_of_pos src p) /\
   nth_error (lines src) (n - 1) = Some text /\
   col = Z.of_nat (col_of_pos src p) /\
   (0 <= col < Z.of_nat (length text))%Z /\
-  exists c, nth_error src p = Some c /\ nth_error text (Z.to_nat col) = Some c /\
-            unexpected_byte c (nth_error src (S p)).
+  exists c, nth_error src p = Some c /\ nth_error text (Z.to_nat col) = Some c /\ c <> 10%N.
 Proof.
-  intros src l p l' text n col Hinv H Hst Hg.
-  destruct (lexer_error_on_char_proof src l p l' Hinv H Hst) as (A & B & C & D & c & Hc & Hu).
-  assert (Hlt : p < length src) by (apply nth_error_Some; congruence).
-  assert (Hnn : nth_error src p <> Some 10%N).
-  { rewrite Hc. intro X. inversion X; subst. destruct Hu as (Hu & _). congruence. }
-  destruct (pos_exact_proof src p text n col Hlt Hnn Hg) as (E1 & E2 & E3 & E4 & E5 & E6).
+  intros src l p l' text n col Hinv H Hg.
+  destruct (lexer_error_pos_proof src l p l' Hinv H) as (A & B & C & D & E & c & Hc & Hc10).
+  destruct (pos_exact_proof src p text n col ltac:(lia) Hg) as (E1 & E2 & E3 & E4 & E5 & E6 & E7).
+  assert (Hlt : (col < Z.of_nat (length text))%Z).
+  { destruct (Z.eq_dec col (Z.of_nat (length text))) as [Heq|Hne]; [|lia].
+    apply E6 in Heq. destruct Heq as [X|X]; [congruence|lia]. }
   split; [exact E1|split; [subst n; cbn [Nat.sub]; rewrite Nat.sub_0_r; exact E2|]].
-  split; [exact E4|split; [exact E5|]].
-  exists c. split; [exact Hc|split; [congruence|exact Hu]].
-Qed.
-
-(* every syntax error of the parser, rendered: the quoted line is line n of the program *)
-Theorem syntax_error_line_consistent_proof : forall src pos text n col,
-  parse_program src = PErr pos \/ parse_expression_src src = PErr pos ->
-  get_line_col src pos = (text, n, col) ->
-  pos <= length src /\ nth_error (lines src) (n - 1) = Some text /\ 1 <= n <= length (lines src).
-Proof.
-  intros src pos text n col H Hg.
-  split; [now apply error_pos_in_src_proof|].
-  destruct (line_text_consistent_proof _ _ _ _ _ Hg) as [A B].
-  split; [exact A|split; [exact B|]].
-  assert (n - 1 < length (lines src)) by (apply nth_error_Some; congruence). lia.
-Qed.
-
-(* ---------- rendered string / regex errors ---------- *)
-
-Lemma count_nl_firstn_S : forall j (s : bytes) c,
-  nth_error s j = Some c ->
-  count_nl (firstn (S j) s) = count_nl (firstn j s) + (if N.eqb c 10 then 1 else 0).
-Proof.
-  induction j as [|j IH]; intros [|x s] c H; simpl in H; try discriminate.
-  - inversion H; subst. simpl. destruct (N.eqb c 10); reflexivity.
-  - change (firstn (S (S j)) (x :: s)) with (x :: firstn (S j) s).
-    change (firstn (S j) (x :: s)) with (x :: firstn j s).
-    cbn [count_nl]. rewrite (IH s c H). destruct (N.eqb x 10); lia.
-Qed.
-
-(* unterminated string whose opening quote is followed, on the same line, by another byte:
-   the error is rendered on the line of the quote, one column to its right *)
-Theorem string_error_caret_proof : forall src l p l' text n col,
-  lex_inv src l -> lex_next l = LexErr p l' -> lstart l' <> p ->
-  p < length src -> nth_error src p <> Some 10%N ->
-  get_line_col src p = (text, n, col) ->
-  n = S (line_of_pos src (lstart l')) /\
-  nth_error (lines src) (line_of_pos src (lstart l')) = Some text /\
-  col = (Z.of_nat (col_of_pos src (lstart l')) + 1)%Z /\
-  (1 <= col < Z.of_nat (length text))%Z /\
-  nth_error text (Z.to_nat col - 1) = nth_error src (lstart l') /\
-  exists q, (q = 39%N \/ q = 34%N) /\ nth_error src (lstart l') = Some q.
-Proof.
-  intros src l p l' text n col Hinv H Hst Hlt Hnn Hg.
-  destruct (lexer_error_in_string_proof src l p l' Hinv H Hst)
-    as (A & B & C & D & E & F & q & Hq & Hsq & Hno).
-  destruct (pos_exact_proof src p text n col Hlt Hnn Hg) as (E1 & E2 & E3 & E4 & E5 & E6).
-  set (j := lstart l') in *.
-  assert (Hq10 : N.eqb q 10 = false) by (destruct Hq; subst q; reflexivity).
-  assert (Hline : line_of_pos src p = line_of_pos src j).
-  { unfold line_of_pos. rewrite A. rewrite (count_nl_firstn_S j src q Hsq). rewrite Hq10. lia. }
-  assert (Hjlt : j < length src) by (apply nth_error_Some; congruence).
-  assert (Hjnn : nth_error src j <> Some 10%N).
-  { rewrite Hsq. intro X. inversion X; subst. discriminate Hq10. }
-  destruct (pos_in_line src j Hjlt Hjnn) as (I1 & I2 & I3).
-  fold (line_of_pos src j) in I1, I2, I3.
-  assert (Htext : nth (line_of_pos src j) (lines src) [] = text).
-  { rewrite <- Hline. apply nth_error_nth. exact E2. }
-  rewrite Htext in I2, I3.
-  rewrite Hline in *. unfold col_of_pos in *. rewrite Hline in E4.
-  split; [exact E1|split; [exact E2|]].
-  split; [lia|split; [lia|split]].
-  - replace (Z.to_nat col - 1) with (j - line_start src (line_of_pos src j)) by lia. exact I3.
-  - exists q. split; assumption.
+  split; [exact E4|split; [lia|]].
+  exists c. split; [exact Hc|split; [rewrite (E7 Hlt); exact Hc|exact Hc10]].
 Qed.
 
 (* unterminated regex: rendered exactly on the opening '/' *)
@@ -761,10 +699,47 @@ Theorem regex_error_caret_proof : forall src l0 t l p l' text n col,
 Proof.
   intros src l0 t l p l' text n col Hinv H Ht Hre Hg.
   destruct (lexer_error_in_regex_proof src l0 t l p l' Hinv H Ht Hre) as (A & B & C & D & E).
-  assert (Hnn : nth_error src p <> Some 10%N) by (rewrite B; discriminate).
-  destruct (pos_exact_proof src p text n col C Hnn Hg) as (E1 & E2 & E3 & E4 & E5 & E6).
-  split; [exact A|split; [exact E1|split; [exact E2|split; [exact E4|split; [exact E5|]]]]].
-  rewrite E6. exact B.
+  destruct (pos_exact_proof src p text n col ltac:(lia) Hg) as (E1 & E2 & E3 & E4 & E5 & E6 & E7).
+  assert (Hlt : (col < Z.of_nat (length text))%Z).
+  { destruct (Z.eq_dec col (Z.of_nat (length text))) as [Heq|Hne]; [|lia].
+    apply E6 in Heq. destruct Heq as [X|X]; [congruence|lia]. }
+  split; [exact A|split; [exact E1|split; [exact E2|split; [exact E4|split; [lia|]]]]].
+  rewrite (E7 Hlt). exact B.
+Qed.
+
+(* every syntax error of the parser (its own or a lexer error passed on), rendered: the offset
+   is inside the text or at its end, so it is rendered exactly -- the line it belongs to, the
+   byte column inside that line, never negative, never past the end of the line *)
+Theorem error_col_in_line_proof : forall src pos text n col,
+  parse_program src = PErr pos \/ parse_expression_src src = PErr pos ->
+  get_line_col src pos = (text, n, col) ->
+  pos <= length src /\
+  n = S (line_of_pos src pos) /\
+  nth_error (lines src) (n - 1) = Some text /\
+  col = Z.of_nat (col_of_pos src pos) /\
+  (0 <= col <= Z.of_nat (length text))%Z /\
+  (col = Z.of_nat (length text) <-> (nth_error src pos = Some 10%N \/ pos = length src)) /\
+  ((col < Z.of_nat (length text))%Z -> nth_error text (Z.to_nat col) = nth_error src pos).
+Proof.
+  intros src pos text n col H Hg.
+  assert (Hle := error_pos_in_src_proof src pos H).
+  destruct (pos_exact_proof src pos text n col Hle Hg) as (E1 & E2 & E3 & E4 & E5 & E6 & E7).
+  split; [exact Hle|split; [exact E1|split; [subst n; cbn [Nat.sub]; rewrite Nat.sub_0_r; exact E2|]]].
+  split; [exact E4|split; [exact E5|split; [exact E6|exact E7]]].
+Qed.
+
+Theorem ast_token_rendered_exact_proof : forall src t text n col,
+  tok_in_src src t ->
+  get_line_col src (tpos t) = (text, n, col) ->
+  n = S (line_of_pos src (tpos t)) /\
+  nth_error (lines src) (line_of_pos src (tpos t)) = Some text /\
+  col = Z.of_nat (col_of_pos src (tpos t)) /\
+  (0 <= col <= Z.of_nat (length text))%Z.
+Proof.
+  intros src t text n col Ht Hg.
+  assert (Hle : tpos t <= length src) by (unfold tok_in_src in Ht; lia).
+  destruct (pos_exact_proof src (tpos t) text n col Hle Hg) as (E1 & E2 & _ & E4 & E5 & _).
+  auto.
 Qed.
 
 (* ---------- Parser.advance: the fuel of the newline-skipping loop is adequate ---------- *)
